@@ -50,6 +50,7 @@ NL == [t |-> "nl", c |-> 0]
 GO == [t |-> "go", c |-> 0]
 RB == [t |-> "rb", c |-> 0]
 LAM == [t |-> "lam", c |-> 0]
+SNL == [t |-> "snl", c |-> 0]      \* a line break that only go/printer adds (two statements written on one line)
 
 (* call numbers: 1 the call on the chain, 2 a helper call inside its callee   *)
 (* expression, 3 the next call inside a func literal body, 4/5 helper calls   *)
@@ -73,7 +74,7 @@ Callee(k, con) ==
                           ELSE << CS(2), ID, LP(2), NL >> \o Ids(NIdents(k)) \o << NL >>    \* pick(\n "s", f,\n )
     [] OTHER           -> Ids(NIdents(k))
 Args(con) == CASE con = "litarg" -> << LAM >> [] con = "mlargs" -> << NL, NL, NL >> [] OTHER -> << >>
-Prefix(con) == CASE con = "complit" -> << CS(4), ID, LP(4), ID, ID, ID >>      \* keep(T0{A: 1, B: 2});
+Prefix(con) == CASE con = "complit" -> << CS(4), ID, LP(4), ID, ID, ID, SNL >> \* keep(T0{A: 1, B: 2}); on the same source line
                  [] con = "litprev" -> << CS(5), ID, LP(5), LAM, NL >>          \* keep("lit") on the line before
                  [] OTHER -> << >>
 Keyword(k) == CASE k = "goroutine" -> << GO >> [] OTHER -> << >>
@@ -108,7 +109,7 @@ Shapes == {[kind |-> k, con |-> c, lit |-> l] : k \in Kinds, c \in Constructs, l
 (* Gap classes (see DESIGN.md section 9 and known_findings.jsonl)             *)
 Gap(sh) ==
   CASE sh.kind = "deferred"  -> "closing-brace"        \* F12
-    [] sh.kind = "goroutine" /\ sh.con # "complit" -> "go-keyword"     \* (restored when a call precedes `go` on its line)
+    [] sh.kind = "goroutine" -> "go-keyword"
     [] sh.kind = "iife"      -> "iife-paren"
     [] sh.con = "mlchain"    -> "paren-on-later-line"
     [] sh.con = "litrecv" /\ sh.lit -> "paren-after-literal"   \* F13
@@ -146,7 +147,7 @@ Scan ==
           /\ CASE stream[i].t = "id" ->
                     /\ cur' = IF attach[IdentIndex(i)] # 0 THEN [name |-> attach[IdentIndex(i)], rel |-> 1] ELSE cur
                     /\ UNCHANGED reported
-               [] stream[i].t = "nl" -> cur' = [cur EXCEPT !.rel = @ + 1] /\ UNCHANGED reported
+               [] stream[i].t \in {"nl", "snl"} -> cur' = [cur EXCEPT !.rel = @ + 1] /\ UNCHANGED reported
                [] stream[i] = PointTok(sh.kind) -> reported' = cur /\ UNCHANGED cur
                [] OTHER -> UNCHANGED <<cur, reported>>
   /\ UNCHANGED <<sh, stream, nextOff, attach>>
@@ -180,7 +181,7 @@ P2(s, j, att, k, c, pt) ==
   IF j > Len(s) THEN NoDirective
   ELSE IF s[j] = pt THEN c
   ELSE IF s[j].t = "id" THEN P2(s, j + 1, att, k + 1, IF att[k + 1] # 0 THEN [name |-> att[k + 1], rel |-> 1] ELSE c, pt)
-  ELSE IF s[j].t = "nl" THEN P2(s, j + 1, att, k, [c EXCEPT !.rel = @ + 1], pt)
+  ELSE IF s[j].t \in {"nl", "snl"} THEN P2(s, j + 1, att, k, [c EXCEPT !.rel = @ + 1], pt)
   ELSE P2(s, j + 1, att, k, c, pt)
 ReportedOf(shp) == LET s == Expand(Stream(shp.kind, shp.con), shp.lit) IN P2(s, 1, P1(s, 1, 0), 0, NoDirective, PointTok(shp.kind))
 OutcomeOf(shp) ==
